@@ -65,12 +65,22 @@ package smtpconn
 // sockClosed(c): the network connection of c was closed (ghost). Close always closes it, even when QUIT fails and the
 // client object is kept in the cl field; nothing can be transmitted on it afterwards.
 //@ ghost field C.sockClosed bool
+// gSockErr: what closing the socket (go-smtp Client.Close) last returned. The only error Close reports is the socket's:
+// a failing QUIT (421, a dropped connection, any reply) after the message was accepted is logged, it is not the
+// transaction's failure - target.smtp / target.lmtp return Close's result from Commit, and the queue would re-attempt
+// (or bounce) recipients the next hop has already taken.
+//@ ghost var gSockErr error
+//@ extern func (*gosmtp.Client).Quit(cl *gosmtp.Client) error
+//@   modifies *cl
+//@ extern func (*gosmtp.Client).Close(cl *gosmtp.Client) error
+//@   modifies *cl, gSockErr
+//@   ensures gSockErr == result
 //@ func (*C).Close
-//@   prop C05
-//@   trusted
+//@   prop C05 C01
 //@   requires c != nil
-//@   modifies *c, *c.cl
-//@   ensures c.cl == nil || c.sockClosed
+//@   modifies *c, *c.cl, gSockErr, gosmtp.SMTPError.Code, gosmtp.SMTPError.EnhancedCode
+//@   trusted-ensures c.cl == nil || c.sockClosed
+//@   ensures result == nil || result == gSockErr
 //@ func New
 //@   prop C05
 //@   ensures result != nil && fresh(result) && result.cl == nil
